@@ -34,6 +34,7 @@ type Ctx struct {
 	Obs    []Obligation
 	Notes  []string
 	Assume []string
+	Undec  []string // rules that could not be applied (anchor changed shape): exit 2 unless a violation is reported anyway
 	seen   map[string]int
 }
 
@@ -72,6 +73,12 @@ func (c *Ctx) note(format string, args ...interface{}) {
 }
 
 func (c *Ctx) assume(s string) { c.Assume = append(c.Assume, s) }
+
+// softUndecided records that one rule cannot be applied to the code's new shape and lets the other rules run; the
+// run ends with exit 2 (UNDECIDED) unless some other rule reports a violation.
+func (c *Ctx) softUndecided(format string, args ...interface{}) {
+	c.Undec = append(c.Undec, fmt.Sprintf(format, args...))
+}
 
 // countRule returns the number of obligations recorded for a rule (any verdict).
 func (c *Ctx) countRule(rule string) int {
@@ -205,6 +212,7 @@ func (c *Ctx) finish(verifDir string, explanation string, t0 time.Time, seed int
 		"notes":               c.Notes,
 		"exhaustive":          true,
 		"all_obligations":     c.Obs,
+		"undecided_rules":     c.Undec,
 	}
 	for k, v := range extra {
 		cov[k] = v
@@ -225,8 +233,14 @@ func (c *Ctx) finish(verifDir string, explanation string, t0 time.Time, seed int
 		fmt.Printf("KNOWN-FINDING: property=%s %s [%s %s at %s]\n", c.Prop, oneLine(k.Detail), k.Rule, k.Key, k.Pos)
 	}
 	vpath := filepath.Join(verifDir, "evidence", c.Prop+".violation.json")
+	for _, u := range c.Undec {
+		fmt.Printf("UNDECIDED property=%s: %s\n", c.Prop, u)
+	}
 	if len(viol) == 0 {
 		_ = os.Remove(vpath)
+		if len(c.Undec) > 0 {
+			return 2
+		}
 		return 0
 	}
 	vb, _ := json.MarshalIndent(map[string]interface{}{"property": c.Prop, "repo": c.P.RepoDir, "violations": viol}, "", " ")
